@@ -31,6 +31,7 @@ class B:
         self.inside_result = None
         self.unwound = []     # frames in the order an exception left them (innermost first)
         self.sent = []
+        self.error_allowed = False
         self.tracked = {}     # id(frame) -> (frame, [managers it has open, outermost first])
         self.decoys = []      # objects that are only passed around as messages (never part of the chain)
 
@@ -304,6 +305,20 @@ class ExitAwaiter:
         return False
 
 
+class ExitAwaiterDelSelf(ExitAwaiter):
+    """the same, but the exit method unbinds its own `self` before it waits (`res = self; del self; await ...`): the
+    frame of __aexit__ then no longer says which manager it belongs to"""
+
+    async def __aexit__(self, *exc):
+        b, i = self.b, self.i
+        del self
+        try:
+            await nxt(b, i)
+        finally:
+            b.unwound.append(sys._getframe())
+        return False
+
+
 class PlainCM:
     def __enter__(self):
         return self
@@ -383,6 +398,15 @@ async def coro_aexit_frame(b, i, ml):
             y = (
                 2
             )  # noqa: F841
+    finally:
+        b.unwound.append(sys._getframe())
+    return "aexit-done"
+
+
+async def coro_aexit_delself_frame(b, i, ml):
+    try:
+        async with ExitAwaiterDelSelf(b, i) as mgr:  # noqa: F841
+            x = 1  # noqa: F841
     finally:
         b.unwound.append(sys._getframe())
     return "aexit-done"
@@ -474,6 +498,9 @@ def nxt(b, i):
         return b.reg(gencoro_frame(b, j, ml))
     if kind == "in_aexit":
         return b.reg(coro_aexit_frame(b, j, ml))
+    if kind == "in_aexit_delself":
+        b.error_allowed = True    # which manager is exiting cannot be told: an error about THAT is not judged here
+        return b.reg(coro_aexit_delself_frame(b, j, ml))
     if kind == "in_with_body":
         return b.reg(coro_withbody_frame(b, j, ml))
     if kind in ("agen_with_asend", "agen_with_async_for", "agen_with_anext"):
@@ -636,7 +663,7 @@ def run_c03(req):
                         "exp": [f.f_code.co_name for f in unw]})
         if got2 != got:
             obs.append({"kind": "with_contexts_changes_frames", "j": j, "got": fdesc(got2), "exp": fdesc(got)})
-        if err is not None:
+        if err is not None and not b.error_allowed:
             obs.append({"kind": "error", "j": j, "exc": repr(err)})
         if root is not x:
             obs.append({"kind": "root", "j": j, "got": repr(root)})
@@ -768,7 +795,7 @@ def run_c16(req):
                     out.append({"kind": "outermost_differs", "tag": "running"})
             except BaseException as ex:
                 out.append({"kind": "outermost_raised", "tag": "running", "exc": repr(ex)})
-            if st_in.error is not None:
+            if st_in.error is not None and not holder["b"].error_allowed:
                 out.append({"kind": "error", "tag": "running", "exc": repr(st_in.error)})
             # the running stack seen from inside must contain every frame of the chain, in order
             holder["obs"] = out
@@ -821,10 +848,10 @@ def run_ctx(req):
             set_trickery_enabled(None)
         for ww in w:
             obs.append({"kind": mode + ".warning", "msg": str(ww.message)[:200]})
-        if st.error is not None:
+        if st.error is not None and not b.error_allowed:
             obs.append({"kind": mode + ".error", "exc": repr(st.error)})
         for pos, f in enumerate(st.frames):
-            if f.funcname == "coro_aexit_frame":
+            if f.funcname in ("coro_aexit_frame", "coro_aexit_delself_frame"):
                 continue     # its manager (the one whose __aexit__ continues the chain) is not a tracked one
             want = list(b.tracked.get(id(f.pyframe), (None, []))[1])
             got = [c.obj for c in f.contexts]
